@@ -466,6 +466,104 @@ def part_shape(ctx, res):
                 res.diff('Delay.rule10/scheduleOK vs tools.compliant.rule_10 / dawgie.schedule', {'moment': l}, m, i)
 
 
+# ------------------------------------------------------------------ part B2: whatever the REAL rules accept must be computable
+def _enc(v):
+    """json-able picture of a moment field (wrong types included)"""
+    if isinstance(v, _dt.datetime):
+        return ['datetime', v.year, v.month, v.day, v.hour, v.minute, v.second]
+    if isinstance(v, _dt.date):
+        return ['date', v.year, v.month, v.day]
+    if isinstance(v, _dt.time):
+        return ['time', v.hour, v.minute, v.second]
+    return v
+
+
+def _dec(v):
+    if isinstance(v, list) and v and v[0] == 'datetime':
+        return _dt.datetime(*v[1:], tzinfo=_dt.UTC)
+    if isinstance(v, list) and v and v[0] == 'date':
+        return _dt.date(*v[1:])
+    if isinstance(v, list) and v and v[0] == 'time':
+        return _dt.time(*v[1:])
+    return v
+
+
+def really_accepted(rl, fields):
+    """asks the real code: (event, accepted) where accepted = dawgie.schedule builds the event and
+    tools.compliant.rule_10 passes a package offering exactly this event"""
+    import dawgie.tools.compliant as compliant
+
+    d = rl.dawgie
+    boot, day, dom, dow, t = (_dec(fields[k]) for k in ('boot', 'day', 'dom', 'dow', 'time'))
+    impl = rl.impls.setdefault(99, types.SimpleNamespace(ref=99))
+    try:
+        ev = d.schedule(rl.factories[False], impl, boot=boot, day=day, dom=dom, dow=dow, time=t)
+    except Exception:  # pylint: disable=broad-except
+        return None, False
+    mod = types.ModuleType('c20_fake_events')
+    mod.events = lambda ev=ev: [ev]
+    sys.modules['c20_fake_events'] = mod
+    try:
+        ok = bool(compliant.rule_10('c20_fake_events'))
+    except Exception:  # pylint: disable=broad-except
+        ok = False
+    finally:
+        del sys.modules['c20_fake_events']
+    return ev, ok
+
+
+def check_accepted(rl, res, fields, instants):
+    """the property itself: a specification the compliance rules accept (day-of-month 1..31, day-of-week 0..6)
+    is computable at every instant"""
+    dom, dow = fields['dom'], fields['dow']
+
+    def out_of_range(v, lo, hi):
+        return isinstance(v, (int, float)) and not isinstance(v, bool) and not lo <= v <= hi
+
+    if out_of_range(dom, 1, 31) or out_of_range(dow, 0, 6):
+        return 'outside'
+    ev, ok = really_accepted(rl, fields)
+    if not ok:
+        return 'rejected'
+    for now_us in instants:
+        out = rl.delay(ev, now_us)
+        if out[0] == 'err' and out[1] != 'notKnowable':
+            what = 'does not return' if out[1] == 'does-not-terminate' else f'raised {out[1]}'
+            res.hit('C20:delay-hangs' if out[1] == 'does-not-terminate' else 'C20:delay-raises',
+                    f'rule_10 and dawgie.schedule accept the moment boot={fields["boot"]} day={fields["day"]} '
+                    f'dom={fields["dom"]} dow={fields["dow"]} time={fields["time"]}, but _delay {what} at {from_us(now_us)}',
+                    {'kind': 'accepted-spec', 'fields': fields, 'now': now_us})
+            return 'fails'
+    return 'computable'
+
+
+def part_accepted(res, r):
+    rl = real()
+    vals = {
+        'boot': [None, True, False],
+        'day': [None, _dt.date(2024, 2, 29), _dt.date(2026, 12, 31), _dt.datetime(2025, 6, 1, 5, 6, 7), '2024-02-29'],
+        'dom': [None, 1, 15, 29, 30, 31, '15', 15.0],
+        'dow': [None, 0, 3, 6, 'mon', 2.0],
+        'time': [None, _dt.time(0, 0, 0), _dt.time(13, 37, 11), _dt.time(23, 59, 59), '03:00', 3],
+    }
+    instants = [us(_dt.datetime(y, m, d, hh, 30, 15, 123456, tzinfo=_dt.UTC))
+                for (y, m, d, hh) in ((2024, 1, 30, 12), (2024, 1, 31, 23), (2024, 2, 29, 0), (2025, 2, 28, 4),
+                                      (2025, 12, 31, 23), (2026, 3, 1, 0), (2027, 6, 15, 12), (2028, 10, 31, 3))]
+    for boot in vals['boot']:
+        for day in vals['day']:
+            for dom in vals['dom']:
+                for dow in vals['dow']:
+                    # keep the grid small: at most two of the four exclusive fields given
+                    if sum(x is not None for x in (boot, day, dom, dow)) > 2:
+                        continue
+                    for t in vals['time']:
+                        fields = {'boot': boot, 'day': _enc(day), 'dom': dom, 'dow': dow, 'time': _enc(t)}
+                        verdict = check_accepted(rl, res, fields, instants)
+                        res.count('accepted-grid:' + verdict)
+                        if verdict in ('computable', 'fails'):
+                            res.case(('accepted', str(fields), verdict), nontrivial=True)
+
+
 # ------------------------------------------------------------------ part C: defer
 STATUSES = ['initial', 'delayed', 'waiting', 'running', 'success', 'failure']
 
@@ -871,7 +969,9 @@ def run(ctx, res):
     thorough = ctx['tier'] == 'thorough' or ctx['escalate']
     res.rule = ('_delay at every 7 h 13 min (quick) / every hour (thorough) of 2023-01-01..2029-01-01 plus the micro-seconds '
                 'around every month boundary, for every day-of-week, every day-of-month 1..31, four dates, boot and an '
-                'out-of-range/malformed stream, against a datetime oracle and the Lean model; defer on generated schedules '
+                'out-of-range/malformed stream, against a datetime oracle and the Lean model; a grid of moments (each of '
+                'boot/day/dom/dow/time absent, present or of a wrong type) put to the REAL rule_10 and dawgie.schedule, every '
+                'accepted one evaluated with the real _delay; defer on generated schedules '
                 '(1-4 nodes, 1-3 events each, all statuses, duplicates in per, paused, 0-3 targets) with the clock placed '
                 'around a designated moment (±1 µs, ±0.5 s, 299/300/301 s, hours, days); up-time simulations of the real '
                 'defer/complete following the timers they arm; non-trivial = a delay was computed / a node was queued / '
@@ -880,6 +980,7 @@ def run(ctx, res):
     part_uptime(ctx, res, r, thorough)
     part_defer(ctx, res, r, thorough)
     part_shape(ctx, res)
+    part_accepted(res, r)
     part_delay(ctx, res, r, thorough)
     part_generated(ctx, res, r, thorough)
 
@@ -898,6 +999,8 @@ def _replay(rep, res):
         _res, hits = _sweep_chunk((inp['spec'], [inp['now']]))
         for sig, what, rp in hits:
             res.hit(sig, what, rp)
+    elif inp['kind'] == 'accepted-spec':
+        check_accepted(rl, res, inp['fields'], [inp['now']])
     elif inp['kind'] == 'defer':
         run_defer(rl, res, inp['scenario'], inp['now'])
     elif inp['kind'] == 'uptime':
